@@ -52,45 +52,49 @@ type act struct {
 var kindNames = []string{"stream", "trace", "connlimit", "ratelimit", "cbreaker", "roundrobin", "rebalancer", "buffer"}
 var documented = map[int64]int64{2: 429, 3: 429, 4: 503, 5: 500, 6: 500, 7: 413}
 
-func decodeOp(op []int64) (layers []layerSpec, acts []act, ok bool) {
+func decodeOp(op []int64) (layers []layerSpec, acts []act, proto int64, ok bool) {
 	if len(op) < 2 {
-		return nil, nil, false
+		return nil, nil, 0, false
 	}
 	nl := int(op[0])
 	if nl < 0 || nl > 12 || len(op) < 1+3*nl+1 {
-		return nil, nil, false
+		return nil, nil, 0, false
 	}
 	for i := 0; i < nl; i++ {
 		k := op[1+3*i]
 		if k < 0 || k > 7 {
-			return nil, nil, false
+			return nil, nil, 0, false
 		}
 		layers = append(layers, layerSpec{k, op[2+3*i], op[3+3*i]})
+	}
+	proto = op[1+3*nl]
+	if proto != 0 && proto != 1 {
+		return nil, nil, 0, false
 	}
 	r := op[1+3*nl+1:]
 	for len(r) > 0 {
 		switch r[0] {
 		case 0:
 			if len(r) < 3 || r[1] < 0 || r[1] > 9 || r[2] < 0 || r[2] > 99 {
-				return nil, nil, false
+				return nil, nil, 0, false
 			}
 			acts = append(acts, act{tag: 0, a: r[1], b: r[2]})
 			r = r[3:]
 		case 1:
 			if len(r) < 2 {
-				return nil, nil, false
+				return nil, nil, 0, false
 			}
 			acts = append(acts, act{tag: 1, a: r[1]})
 			r = r[2:]
 		case 2:
 			if len(r) < 2 || r[1] < 0 || int(r[1]) > len(r)-2 {
-				return nil, nil, false
+				return nil, nil, 0, false
 			}
 			n := int(r[1])
 			d := make([]byte, n)
 			for i := 0; i < n; i++ {
 				if r[2+i] < 32 || r[2+i] > 126 {
-					return nil, nil, false
+					return nil, nil, 0, false
 				}
 				d[i] = byte(r[2+i])
 			}
@@ -99,37 +103,58 @@ func decodeOp(op []int64) (layers []layerSpec, acts []act, ok bool) {
 		case 3, 4:
 			acts = append(acts, act{tag: r[0]})
 			r = r[1:]
+		case 5:
+			if len(r) < 2 || r[1] != 103 {
+				return nil, nil, 0, false
+			}
+			acts = append(acts, act{tag: 5, a: r[1]})
+			r = r[2:]
 		default:
-			return nil, nil, false
+			return nil, nil, 0, false
 		}
 	}
-	// well-formed handlers only: headers, then at most one status, then writes/flushes; a hijack only as the sole action
+	// well-formed handlers only: an optional hijack attempt first (the rest is then the fallback used when hijacking is
+	// impossible), headers, informational 1xx responses (each followed, eventually, by an explicit final status),
+	// at most one final status, then writes/flushes
 	phase := 0
+	pendingInfo := false
 	for i, a := range acts {
 		switch a.tag {
 		case 0:
 			if phase > 0 {
-				return nil, nil, false
+				return nil, nil, 0, false
 			}
-		case 1:
+		case 5:
 			if phase > 0 {
-				return nil, nil, false
+				return nil, nil, 0, false
+			}
+			pendingInfo = true
+		case 1:
+			pendingInfo = false
+			if phase > 0 {
+				return nil, nil, 0, false
 			}
 			phase = 1
 			switch a.a {
 			case 200, 201, 202, 400, 404, 500, 502:
 			default:
-				return nil, nil, false
+				return nil, nil, 0, false
 			}
 		case 2, 3:
+			if pendingInfo {
+				return nil, nil, 0, false
+			}
 			phase = 2
 		case 4:
-			if i != 0 || len(acts) != 1 {
-				return nil, nil, false
+			if i != 0 {
+				return nil, nil, 0, false
 			}
 		}
 	}
-	return layers, acts, true
+	if pendingInfo {
+		return nil, nil, 0, false
+	}
+	return layers, acts, proto, true
 }
 
 type handlerBox struct{ h http.Handler }
@@ -167,18 +192,18 @@ func scripted(acts []act, p *probe) http.Handler {
 				if f, ok := w.(http.Flusher); ok {
 					f.Flush()
 				}
+			case 5:
+				w.WriteHeader(int(a.a))
 			case 4:
 				hj, ok := w.(http.Hijacker)
 				if !ok {
 					p.hijackErr = "writer is not an http.Hijacker"
-					w.WriteHeader(599)
-					return
+					continue // fall back to an ordinary response
 				}
 				conn, rw, err := hj.Hijack()
 				if err != nil {
 					p.hijackErr = err.Error()
-					w.WriteHeader(599)
-					return
+					continue
 				}
 				_, _ = rw.WriteString("HTTP/1.1 299 Hijacked\r\nContent-Length: 2\r\nConnection: close\r\n\r\nhj")
 				_ = rw.Flush()
@@ -305,11 +330,21 @@ func hashBytes(b []byte) int64 {
 	return h
 }
 
-func exchange(h http.Handler) result {
-	srv := httptest.NewServer(h)
+func exchange(h http.Handler, proto int64) result {
+	var srv *httptest.Server
+	var client *http.Client
+	if proto == 1 {
+		srv = httptest.NewUnstartedServer(h)
+		srv.EnableHTTP2 = true
+		srv.StartTLS()
+		client = srv.Client()
+		client.Timeout = 10 * time.Second
+	} else {
+		srv = httptest.NewServer(h)
+		client = &http.Client{Transport: &http.Transport{DisableKeepAlives: true, Proxy: nil,
+			DialContext: (&net.Dialer{Timeout: 5 * time.Second}).DialContext}, Timeout: 10 * time.Second}
+	}
 	defer srv.Close()
-	client := &http.Client{Transport: &http.Transport{DisableKeepAlives: true, Proxy: nil,
-		DialContext: (&net.Dialer{Timeout: 5 * time.Second}).DialContext}, Timeout: 10 * time.Second}
 	req, _ := http.NewRequest(http.MethodPost, srv.URL+"/some/path?q=1", bytes.NewReader([]byte("0123456789")))
 	resp, err := client.Do(req)
 	if err != nil {
@@ -375,14 +410,23 @@ func (c *stackComp) Gen(rng *rand.Rand, idx int, tier string, targeted bool) hli
 			}
 			op = append(op, k, iv, hlib.B2i(rng.Intn(3) == 0))
 		}
-		op = append(op, 0)
-		if rng.Intn(12) == 0 {
-			op = append(op, 4)
-		} else {
+		op = append(op, hlib.B2i(rng.Intn(4) == 0)) // protocol: 0 HTTP/1.1, 1 HTTP/2
+		hij := rng.Intn(8) == 0
+		if hij {
+			op = append(op, 4) // hijack attempt; what follows is the fallback when hijacking is impossible
+		}
+		if !hij || rng.Intn(2) == 0 {
 			for k := 0; k < rng.Intn(4); k++ {
 				op = append(op, 0, int64(rng.Intn(10)), int64(rng.Intn(100)))
 			}
-			if rng.Intn(3) != 0 {
+			info := rng.Intn(6) == 0
+			if info {
+				op = append(op, 5, 103)
+				if rng.Intn(3) == 0 {
+					op = append(op, 5, 103)
+				}
+			}
+			if info || rng.Intn(3) != 0 {
 				op = append(op, 1, hlib.Pick(rng, 200, 200, 201, 202, 400, 404, 500, 502))
 			}
 			for k := 0; k < rng.Intn(4); k++ {
@@ -407,7 +451,7 @@ func (c *stackComp) Gen(rng *rand.Rand, idx int, tier string, targeted bool) hli
 func (c *stackComp) Run(h *hlib.History) ([]hlib.Mon, bool) {
 	var mons []hlib.Mon
 	for step, op := range h.Ops {
-		layers, acts, ok := decodeOp(op)
+		layers, acts, proto, ok := decodeOp(op)
 		if !ok {
 			return nil, false
 		}
@@ -416,7 +460,7 @@ func (c *stackComp) Run(h *hlib.History) ([]hlib.Mon, bool) {
 		if err != nil {
 			return nil, false
 		}
-		r := exchange(top)
+		r := exchange(top, proto)
 		inv := int64(atomic.LoadInt32(&p.invocations))
 		h.Obs = append(h.Obs, []int64{r.hijacked, r.status, inv, r.bodyLen, r.bodyHash, r.nh, r.hh, r.cookie})
 		add := func(format string, a ...interface{}) {
@@ -453,18 +497,18 @@ func (c *stackComp) Run(h *hlib.History) ([]hlib.Mon, bool) {
 		}
 		// passive: compare with the bare handler
 		p0 := &probe{}
-		r0 := exchange(scripted(acts, p0))
+		r0 := exchange(scripted(acts, p0), proto)
 		if inv != 1 {
 			add("no layer intervenes but the handler was invoked %d time(s)", inv)
 		}
-		if p.hijackErr != "" {
+		if p.hijackErr != "" && proto == 0 {
 			add("hijacking is not available to the handler: %s", p.hijackErr)
 		}
 		if r.hijacked != r0.hijacked || r.status != r0.status || r.bodyLen != r0.bodyLen || r.bodyHash != r0.bodyHash || r.nh != r0.nh || r.hh != r0.hh {
 			add("client sees (hijacked %d, status %d, body %d bytes #%d, %d headers #%d) but the bare handler gives (hijacked %d, status %d, body %d bytes #%d, %d headers #%d)",
 				r.hijacked, r.status, r.bodyLen, r.bodyHash, r.nh, r.hh, r0.hijacked, r0.status, r0.bodyLen, r0.bodyHash, r0.nh, r0.hh)
 		}
-		if !hasBuffer && len(acts) > 0 && acts[0].tag != 4 && atomic.LoadInt32(&p.flusher) == 0 {
+		if !hasBuffer && atomic.LoadInt32(&p.flusher) == 0 {
 			add("the writer handed to the handler does not implement http.Flusher although no buffer is in the stack")
 		}
 		if r.hijacked == 0 && (r.cookie == 1) != hasSticky {
@@ -492,7 +536,7 @@ func describeLayers(layers []layerSpec) string {
 func (c *stackComp) Describe(h *hlib.History) interface{} {
 	var out []string
 	for i, op := range h.Ops {
-		layers, acts, ok := decodeOp(op)
+		layers, acts, proto, ok := decodeOp(op)
 		if !ok {
 			out = append(out, "invalid")
 			continue
@@ -510,9 +554,11 @@ func (c *stackComp) Describe(h *hlib.History) interface{} {
 				as = append(as, "flush")
 			case 4:
 				as = append(as, "hijack")
+			case 5:
+				as = append(as, fmt.Sprintf("info %d", a.a))
 			}
 		}
-		s := describeLayers(layers) + " handler{" + strings.Join(as, "; ") + "}"
+		s := describeLayers(layers) + []string{" http/1.1", " h2"}[proto] + " handler{" + strings.Join(as, "; ") + "}"
 		if i < len(h.Obs) {
 			s += fmt.Sprintf(" -> %v", h.Obs[i])
 		}
@@ -524,7 +570,7 @@ func (c *stackComp) Describe(h *hlib.History) interface{} {
 func (c *stackComp) Nontrivial(h *hlib.History) string {
 	deep, interv := 0, 0
 	for _, op := range h.Ops {
-		layers, _, ok := decodeOp(op)
+		layers, _, _, ok := decodeOp(op)
 		if !ok {
 			continue
 		}
